@@ -16,7 +16,7 @@ func search(rep *report.Report, label string, o *Options, depth int, dl time.Tim
 
 // RunC04 decides C04 at the handler tier.
 func RunC04(rep *report.Report, tier string) {
-	dl := ribhist.Budget(tier, 100*time.Second, 20*time.Minute)
+	ck := ribhist.NewClock(tier, 100*time.Second, 20*time.Minute, 2)
 	ids := []ID{{0, 1}, {0, 2}, {1, 1}, {2, 1}}
 	abs := []ID{{0, 1}, {1, 1}, {2, 1}}
 	entries := []string{"ADD nh1", "DELETE nh1", "ADD v4->1"}
@@ -30,7 +30,7 @@ func RunC04(rep *report.Report, tier string) {
 	rep.Set("alphabet", Names(ls))
 	for _, nofwd := range []bool{false, true} {
 		o := &Options{Letters: ls, Sessions: n, NoFwdRefs: nofwd, Checks: Checks{Primary: true, Election: true}}
-		search(rep, fmt.Sprintf("handlers/%d-sessions/forward-refs-%v", n, !nofwd), o, depth, dl)
+		search(rep, fmt.Sprintf("handlers/%d-sessions/forward-refs-%v", n, !nofwd), o, depth, ck.Next())
 	}
 }
 
